@@ -135,6 +135,14 @@ def attribute(forms, kind, unit, as_module):
             any(isinstance(b, list) and len(b) == 2 and isinstance(b[1], list) and b[1] and b[1][0] == "quote" for b in n[1])
             for n in nodes):
         return "F01 let that binds a quoted constant next to another binding makes the bound name a free identifier"
+    if "FreeIdentifier" in kind or (unit or {}).get("kind") == "FreeIdentifier":
+        for n in nodes:
+            if n and n[0] == "let" and len(n) > 2 and isinstance(n[1], list) and len(n[1]) >= 2:
+                bs = [b for b in n[1] if isinstance(b, list) and len(b) == 2 and isinstance(b[0], R.Sym)]
+                for b in bs:
+                    if not isinstance(b[1], (list, R.Sym)) and any(o is not b and any(a == b[0] for a in _atoms(o[1])) for o in bs):
+                        return ("F13 let that binds a literal constant to a name shadowing an enclosing variable, next to a binding whose "
+                                "initialiser reads that variable, makes the other bound name a free identifier")
     if "succeeds where the reference raises" in kind or "effects" in kind:
         arities = {}
         for f in forms:
@@ -190,6 +198,7 @@ F12 = ("F12 (JIT on) an error the reference raises is lost in natively compiled 
        "#<void> and execution continues - up to unbounded recursion and SIGSEGV; correct with STEEL_JIT=false")
 
 KNOWN_WITNESSES = [
+    ("F13", "(define (f4 acc) (let ((acc 2) (tmp acc)) tmp)) (verif-emit (f4 6))", False),
     ("F12", "(verif-emit ((lambda (g) (g 1)) (lambda (a) (car a))))", True),
     ("F12", "(verif-emit (foldr + 0 5))", False),
     ("F10", "(define v (vector 5 1)) (verif-emit (with-handler (lambda (e) 'err) (vector-ref v 3)))", True),
